@@ -17,6 +17,7 @@ class TA(Agent):
     def initialize(self):
         self.agent_type = "a"
         self.register_event_handler(["active", "other"], "msg", self.on_msg)
+        self.register_event_handler(["active", "other"], "note", self.on_msg)
     def on_msg(self, e):
         LOG.append((e.data, self.id, self.model.scheduler.current_round, self.model.scheduler.current_step))
 
@@ -37,17 +38,22 @@ def run(case):
         for op in [o for o in case["ops"] if o[0] == g]:
             k = op[1]
             if k == "send":
-                _, _, tag, rid, d = op
+                _, _, tag, rid, d = op[:5]
+                name = op[5] if len(op) > 5 else "msg"
                 if d is None:
-                    ev = Event("msg", 0, rid, data=tag); extra = 0
+                    ev = Event(name, 0, rid, data=tag); extra = 0
                 else:
-                    ev = DelayedEvent("msg", 0, rid, delay=d * dt, data=tag); extra = int(math.ceil(d))   # ceil((d*dt)/dt)
+                    ev = DelayedEvent(name, 0, rid, delay=d * dt, data=tag); extra = int(math.ceil(d))   # ceil((d*dt)/dt)
                 m.enqueue_event(ev)
                 expected.append([tag, rid, g + extra])
             elif k == "delete":
                 m.delete_agent(op[2]); live.discard(op[2])
             elif k == "create":
                 m.create_agent("a", None); live.add(nxt); nxt += 1
+            elif k == "reconf":
+                # reconfiguration: all agents are replaced by op[2] new ones (ids are never reused)
+                m.configure_agents([{"name": "a", "count": op[2]}])
+                live = set(range(nxt, nxt + op[2])); nxt += op[2]
             elif k == "state":
                 a = m.agent(op[2])
                 if a is not None:
@@ -93,8 +99,18 @@ def gen(rnd):
             r = rnd.random()
             if r < 0.6:
                 d = None if rnd.random() < 0.5 else rnd.choice([0, 1, 2, 3, 0.5, 1.5, 2.25])
-                ops.append((g, 'send', ('p' if d is None else 'd') + str(tag), rnd.randint(0, nxt), d))
+                ops.append((g, 'send', ('p' if d is None else 'd') + str(tag), rnd.randint(0, nxt), d, rnd.choice(['msg', 'note'])))
                 tag += 1
+                if rnd.random() < 0.3:
+                    # a burst to one agent with interleaved event names
+                    rid = rnd.randint(0, nxt)
+                    for nm in rnd.choice([('msg', 'note', 'msg'), ('note', 'msg', 'note', 'msg'), ('msg', 'msg', 'note')]):
+                        ops.append((g, 'send', 'p' + str(tag), rid, None, nm))
+                        tag += 1
+            elif r < 0.66 and nxt < 14:
+                k = rnd.randint(1, 3)
+                ops.append((g, 'reconf', k))
+                nxt += k
             elif r < 0.75:
                 ops.append((g, 'delete', rnd.randint(0, nxt)))
             elif r < 0.85:
